@@ -14,7 +14,7 @@ import (
 func init() {
 	register("C15", PropCheck{
 		Title:      "Malformed bytecode is rejected with an error, never a crash or a silent accept",
-		Explain:    "Decided for all byte strings at once: (R1) every index, slice and length-preconditioned library call on a byte slice / string / byte array in package vm (decoder primitives, Parse* wrappers, opcode handlers, disassembler, input validation) is proved in bounds by a difference-constraint closure over dominating length guards; (R2) no slice bound is computed by arithmetic that can wrap in a narrow integer type; (R3) for every call of a decoder (a vm function taking bytecode and returning an error) made in package vm, the error value flows into the error result of the caller and every other result of that call is used (as call argument or in a store) only behind the error==nil edge; (R4) every switch over vm.Opcode has an erroring default; (R5) opSplit rejects values above the largest opcode with a handler; (R6) the integer decoder rejects a length byte above 4; (R7) State flag accessors that panic out of range are called with a bytecode-supplied index only behind a range test against FlagBitSize; (R8) every path through a Parse* function to a nil-error return decodes the same sequence of arguments (no success path that skips a primitive decoder); (R9) no operand decoded from bytecode is narrowed without a range check anywhere in package vm (the conversion's operand is proved within the target type's range by a dominating test, as for the LOAD size limit), so an out-of-range operand is rejected instead of being accepted with its low-order bits.",
+		Explain:    "Decided for all byte strings at once: (R1) every index, slice and length-preconditioned library call on a byte slice / string / byte array in package vm (decoder primitives, Parse* wrappers, opcode handlers, disassembler, input validation) is proved in bounds by a difference-constraint closure over dominating length guards; (R2) no slice bound is computed by arithmetic that can wrap in a narrow integer type; (R3) for every call of a decoder (a vm function taking bytecode and returning an error) made in package vm, the error value flows into the error result of the caller and every other result of that call is used (as call argument or in a store) only behind the error==nil edge; (R4) every switch over vm.Opcode has an erroring default; (R5) opSplit rejects values above the largest opcode with a handler; (R6) the integer decoder rejects a length byte above 4; (R7) State flag accessors that panic out of range are called with a bytecode-supplied index only behind a range test against FlagBitSize; (R8) every path through a Parse* function to a nil-error return decodes the same sequence of arguments (no success path that skips a primitive decoder); (R9) no operand decoded from bytecode is narrowed without a range check anywhere in package vm (the conversion's operand is proved within the target type's range by a dominating test, as for the LOAD size limit), so an out-of-range operand is rejected instead of being accepted with its low-order bits; (R10) ParseHandler.ParseAll reports success only behind an edge on which the remaining bytecode is known to be empty (len == 0 exactly; added after seeded change C15-G, a loop that stopped at fewer than two bytes); (R11) a call in package vm through a function value loaded from an array, slice or map element is dominated by a non-nil test of that value (added after C15-H, a dispatch table with no entry for opcode 0).",
 		NotDecided: "panics inside callbacks supplied by the caller of ParseHandler; implicit panics outside package vm (C08 covers named renderer sites); execution effects of well-formed but meaningless programs; that error texts are helpful.",
 		Assume:     []string{"slices and strings are shorter than MaxInt-2^16 bytes, so len(x)+small constant does not overflow int", "encoding/binary.BigEndian.UintN/PutUintN panic exactly when the slice is shorter than N/8 bytes"},
 		Run:        runC15,
@@ -67,6 +67,8 @@ func runC15(w *core.World, r *core.Report) {
 	r.Rule("R6", "the integer decoder rejects a length byte above 4")
 	r.Rule("R7", "bytecode-supplied flag indices are range-checked before State.GetFlag/MatchFlag/SetFlag/ResetFlag")
 	r.Rule("R8", "all nil-error paths of a Parse* function decode the same argument sequence")
+	r.Rule("R11", "a call in package vm through a function value loaded from a table is behind a non-nil test of that value")
+	r.Rule("R10", "ParseAll reports success only behind len(remaining) == 0")
 	r.Rule("R9", "no lossy integer narrowing of decoded operands in package vm (operand proved in range at the conversion)")
 
 	bits := intBits(w)
@@ -421,6 +423,9 @@ func runC15(w *core.World, r *core.Report) {
 	}
 	n9 := checkNarrowing(w, r, "R9", nfns, "an operand decoded from bytecode is silently replaced by its low-order bits: an out-of-range operand is accepted with a different meaning instead of being rejected")
 	r.Floor("R9", "narrowing conversions in package vm", n9, 1)
+	// ---- R10 / R11 -----------------------------------------------------------------------------
+	checkParseAllEndsAtEmpty(w, r, "R10")
+	checkTableCallsNilChecked(w, r, "R11")
 }
 
 func describeSite(s core.BoundsSite) string {
